@@ -228,15 +228,21 @@ def gen(R):
             initial[p] = {"gen": g, "imports": imps}
     app_conf = R.choice([None, {"x": 1}, {"x": 1}])
     ops = []
+    exists = set(initial)  # create only takes effect for a missing file, modify only for an existing one
     for _ in range(R.int(2, 10)):
         k = R.weighted([(4, "modify"), (2, "touch"), (2, "create"), (2, "delete"), (1, "comment"), (1, "uncomment"), (3, "appconf"), (6, "reload"), (2, "bump")])
         p = R.choice(paths)
         if k in ("modify", "create"):
             g += 1
             imps = no_cycle(p, [i for i in range(len(IMPORTS[p])) if R.bool(1, 2)], cur_imports)
-            cur_imports[p] = imps
+            if (k == "create") != (p in exists):
+                cur_imports[p] = imps
+                exists.add(p)
             ops.append({"op": k, "path": p, "gen": g, "imports": imps})
         elif k in ("touch", "delete", "comment", "uncomment"):
+            if k == "delete":
+                exists.discard(p)
+                cur_imports.pop(p, None)
             ops.append({"op": k, "path": p})
         elif k == "appconf":
             ops.append({"op": "appconf", "conf": R.choice([None, {"x": 1}, {"x": 2}])})
@@ -362,10 +368,12 @@ class C10(ModelCheck):
         if cyclic(cur):
             return False
         for op in case["ops"]:
-            if op["op"] in ("modify", "create"):
+            if op["op"] in ("modify", "create") and (op["op"] == "create") != (op["path"] in cur):
                 cur[op["path"]] = op["imports"]
                 if cyclic(cur):
                     return False
+            elif op["op"] == "delete":
+                cur.pop(op["path"], None)
         return True
     rule = (
         "file trees over pyscript/a.py, b.py, scripts/s1.py, scripts/sub/s2.py, apps/app12.py (single-file app whose name has the app package's name as a prefix), modules m12 (prefix m1) and m3 (leaf below a diamond), apps/app1/__init__.py + helper.py, modules/m1.py, "
